@@ -2997,6 +2997,17 @@ impl Block {
             }
 
             //
+            // block ids are consecutive
+            //
+            if self.id != previous_block.id + 1 {
+                error!(
+                    "ERROR 820390: block id {} does not follow the id {} of its parent",
+                    self.id, previous_block.id
+                );
+                return false;
+            }
+
+            //
             // treasury
             //
             let mut expected_treasury = previous_block.treasury;
